@@ -1175,3 +1175,234 @@ func runNR2(c *load.Ctx, r *report.RuleResult) {
 		r.Unk("anchor|AddNamedType call sites", "", "the API package never calls AddNamedType")
 	}
 }
+
+func init() {
+	register(&Rule{ID: "OR-6", Min: 2, Run: runOR6,
+		Doc: "paired bounds are compared after the exclusive flags are in place: wherever the compiler calls checkPairConstraints (whose min/max comparison is strict when a bound carries its exclusive flag — T5), the calls that fold exclusiveMinimum / exclusiveMaximum into the bounds (T6) dominate it; in the other order the flags are still unset when the pair is compared and min = max with an exclusive bound is accepted"})
+}
+
+func runOR6(c *load.Ctx, r *report.RuleResult) {
+	pair := c.Func(pkgLoader, "schemaCompiler.checkPairConstraints")
+	exMin := c.Func(pkgLoader, "schemaCompiler.exclusiveMinimumConstraint")
+	exMax := c.Func(pkgLoader, "schemaCompiler.exclusiveMaximumConstraint")
+	if pair == nil || exMin == nil || exMax == nil {
+		r.Unk("anchor|schemaCompiler pair / exclusive steps", "", "not found")
+		return
+	}
+	n := 0
+	for _, fn := range findCallers(c, pair) {
+		for _, site := range callSites(fn, pair) {
+			for _, step := range []*ssa.Function{exMin, exMax} {
+				n++
+				key := fmt.Sprintf("order|%s|%s-before-checkPairConstraints", load.FuncKey(fn), step.Name())
+				ok := false
+				for _, s := range callSites(fn, step) {
+					if dominatesInstr(s, site) {
+						ok = true
+					}
+				}
+				if ok {
+					r.OK(key, c.Pos(site.Pos()), "the flag is folded into its bound before the pair is compared")
+				} else {
+					r.Bad(key, c.Pos(site.Pos()), fmt.Sprintf("checkPairConstraints is called without a dominating call of %s: the exclusive flag is not yet on the bound when min and max are compared, so a pair with min = max and an exclusive bound passes (inside an or rule-set nothing else rejects it)", step.Name()))
+				}
+			}
+		}
+	}
+	if n == 0 {
+		r.Unk("anchor|callers of checkPairConstraints", "", "checkPairConstraints is never called")
+	}
+}
+
+func init() {
+	register(&Rule{ID: "NZ-1", Min: 1, Run: runNZ1,
+		Doc: "zero has no sign: the function that builds an exact Number from a numeral (it stores the scanned sign into Number.neg) also clears neg under a condition on the remaining digits (the length of Number.nat after trimming) — Number.Cmp orders by sign first (T-cmp), so a zero that keeps the minus sign of \"-0\" or \"-0.00\" compares below 0 and fails {min: 0}"})
+}
+
+func runNZ1(c *load.Ctx, r *report.RuleResult) {
+	numT := namedType(c, pkgJSON, "Number")
+	if numT == nil {
+		r.Unk("anchor|internal/json.Number", "", "not found")
+		return
+	}
+	st, _ := numT.Underlying().(*types.Struct)
+	negIdx, natIdx := -1, -1
+	for i := 0; st != nil && i < st.NumFields(); i++ {
+		switch st.Field(i).Name() {
+		case "neg":
+			negIdx = i
+		case "nat":
+			natIdx = i
+		}
+	}
+	if negIdx < 0 || natIdx < 0 {
+		r.Unk("anchor|Number.neg / Number.nat", "", "fields not found")
+		return
+	}
+	isNumField := func(v ssa.Value, idx int) bool {
+		fa, ok := v.(*ssa.FieldAddr)
+		if !ok || fa.Field != idx {
+			return false
+		}
+		pt, ok := fa.X.Type().Underlying().(*types.Pointer)
+		return ok && types.Identical(pt.Elem(), numT)
+	}
+	n := 0
+	for _, fn := range c.ModuleFunctions() {
+		if load.FuncPkgRel(fn) != pkgJSON {
+			continue
+		}
+		builds := false
+		var clears []*ssa.Store
+		for _, b := range fn.Blocks {
+			for _, ins := range b.Instrs {
+				s, ok := ins.(*ssa.Store)
+				if !ok || !isNumField(s.Addr, negIdx) {
+					continue
+				}
+				if k, isConst := s.Val.(*ssa.Const); isConst {
+					if k.Value != nil && k.Value.String() == "false" {
+						clears = append(clears, s)
+					}
+					continue
+				}
+				builds = true
+			}
+		}
+		if !builds {
+			continue
+		}
+		n++
+		key := "signzero|" + load.FuncKey(fn)
+		ok := false
+		for _, s := range clears {
+			// the clearing store is conditional on the digits: some If that dominates it tests len(nat)
+			for _, b := range fn.Blocks {
+				if len(b.Instrs) == 0 || !b.Dominates(s.Block()) || b == s.Block() {
+					continue
+				}
+				iff, isIf := b.Instrs[len(b.Instrs)-1].(*ssa.If)
+				if !isIf {
+					continue
+				}
+				if condOnField(iff.Cond, func(v ssa.Value) bool { return isNumField(v, natIdx) }, 0) {
+					ok = true
+				}
+			}
+		}
+		if ok {
+			r.OK(key, c.Pos(fn.Pos()), "the sign is cleared when no significant digit is left")
+		} else {
+			r.Bad(key, c.Pos(fn.Pos()), "the scanned minus sign is stored into Number.neg and never cleared for a zero magnitude: -0, -0.0 and -0.00 become negative numbers, which Number.Cmp orders below 0 (they fail {min: 0} and differ from 0)")
+		}
+	}
+	if n == 0 {
+		r.Unk("anchor|Number construction", "", "no function stores a computed sign into Number.neg")
+	}
+}
+
+// condOnField: the condition is computed from a load of the field (through len, comparisons, calls on it).
+func condOnField(v ssa.Value, isField func(ssa.Value) bool, depth int) bool {
+	if depth > 6 || v == nil {
+		return false
+	}
+	switch x := v.(type) {
+	case *ssa.BinOp:
+		return condOnField(x.X, isField, depth+1) || condOnField(x.Y, isField, depth+1)
+	case *ssa.UnOp:
+		if isField(x.X) {
+			return true
+		}
+		return condOnField(x.X, isField, depth+1)
+	case *ssa.Call:
+		for _, a := range x.Call.Args {
+			if condOnField(a, isField, depth+1) {
+				return true
+			}
+			// a method on the number itself (isZero(), int() …) reads its fields
+			if al, ok := a.(*ssa.Alloc); ok {
+				if pt, ok := al.Type().Underlying().(*types.Pointer); ok {
+					if _, ok := pt.Elem().(*types.Named); ok && x.Call.StaticCallee() != nil && x.Call.StaticCallee().Signature.Recv() != nil {
+						return true
+					}
+				}
+			}
+		}
+	case *ssa.Convert:
+		return condOnField(x.X, isField, depth+1)
+	case *ssa.Phi:
+		for _, e := range x.Edges {
+			if condOnField(e, isField, depth+1) {
+				return true
+			}
+		}
+	}
+	return false
+}
+
+func init() {
+	register(&Rule{ID: "KS-1", Min: 1, Run: runKS1,
+		Doc: "a key shortcut admits any number of keys: the function that matches an unknown document key against the key shortcuts of an object (objectValidator.validateTypeRules) decides from the shortcut's type alone — no branch in it depends on the validator's set of keys still owed; tying the match to that set lets a shortcut match once only (a second conforming key is rejected) and never when it is optional"})
+}
+
+func runKS1(c *load.Ctx, r *report.RuleResult) {
+	fn := c.Func(pkgValidator, "objectValidator.validateTypeRules")
+	ovT := namedType(c, pkgValidator, "objectValidator")
+	if fn == nil || ovT == nil {
+		r.Unk("anchor|validator.objectValidator.validateTypeRules", "", "not found")
+		return
+	}
+	st := ovT.Underlying().(*types.Struct)
+	owed := -1
+	for i := 0; i < st.NumFields(); i++ {
+		if st.Field(i).Name() == "requiredKeys" {
+			owed = i
+		}
+	}
+	if owed < 0 {
+		r.Unk("anchor|objectValidator.requiredKeys", "", "field not found")
+		return
+	}
+	fromOwed := func(v ssa.Value) bool {
+		for depth := 0; depth < 6; depth++ {
+			switch x := v.(type) {
+			case *ssa.UnOp:
+				v = x.X
+			case *ssa.FieldAddr:
+				return x.Field == owed && types.Identical(derefType(x.X.Type()), ovT)
+			case *ssa.Field:
+				return x.Field == owed && types.Identical(x.X.Type(), ovT)
+			default:
+				return false
+			}
+		}
+		return false
+	}
+	var bad []string
+	for _, b := range fn.Blocks {
+		for _, ins := range b.Instrs {
+			switch x := ins.(type) {
+			case *ssa.Lookup:
+				if fromOwed(x.X) {
+					bad = append(bad, "looks the shortcut up in the set of keys still owed at "+c.Pos(x.Pos()))
+				}
+			case *ssa.Range:
+				if fromOwed(x.X) {
+					bad = append(bad, "ranges over the set of keys still owed at "+c.Pos(x.Pos()))
+				}
+			}
+		}
+	}
+	if len(bad) > 0 {
+		r.Bad("keyshortcut|validateTypeRules", c.Pos(fn.Pos()), strings.Join(uniq(bad), "; ")+": a shortcut that was matched once (or is optional) is no longer tried, so {@K: 1} accepts {\"a\":1} but rejects {\"a\":1,\"b\":2}")
+	} else {
+		r.OK("keyshortcut|validateTypeRules", c.Pos(fn.Pos()), "the match does not consult the set of keys still owed")
+	}
+}
+
+func derefType(t types.Type) types.Type {
+	if p, ok := t.Underlying().(*types.Pointer); ok {
+		return p.Elem()
+	}
+	return t
+}
